@@ -39,7 +39,8 @@ static unsigned char *xin(size_t len, int align) { return xb(len, align, PAT_R1)
 static unsigned char *xout(size_t len, int align) { return xb(len, align, -1); }
 static char *xstr(const char *s, size_t n) { char *p = (char *) xb(n + 1, 0, -1); memcpy(p, s, n); p[n] = 0; return p; }     /* NUL is the last byte of the block */
 static void xfree(void) { while (nblocks) { nblocks--; if (blocklen[nblocks]) munmap(blocks[nblocks], blocklen[nblocks]); else free(blocks[nblocks]); } }
-#define CALL(api, a, b, c) (cur_api = api, cur_a = (long) (a), cur_b = (long) (b), cur_c = (long) (c), n_eval++, n_nontriv++)
+#define CALL(api, a, b, c) (cur_api = api, cur_a = (long) (a), cur_b = (long) (b), cur_c = (long) (c), n_eval++, n_nontriv++, \
+    (((a) == 257 && (c) == 5 && vf_worker_id <= 0 && vf_nsample < 6) ? (vf_nsample++, printf("SAMPLE %s with length %ld, second length %ld, alignment offset %ld, %s\n", api, (long) (a), (long) (b), (long) (c), guard_pass ? "every buffer ending at a PROT_NONE page" : "every buffer an exact-size heap block (ASan red zone directly behind it)"), 0) : 0))
 
 static const size_t BND[] = { 0, 1, 15, 16, 17, 31, 32, 33, 63, 64, 65, 127, 128, 129, 223, 224, 225, 255, 256, 257, 511, 512, 513, 1023, 1024, 1025 };
 #define NBND (sizeof BND / sizeof BND[0])
